@@ -409,10 +409,7 @@ func RegionsFromGFF(anno gff.GFF, refSeqDegapped string) ([]Region, []int, error
 		tempcds = append(tempcds, r)
 	}
 
-	// get a slide of positions that are not coding based on everything above
-	inter := codes(tempcds, len(refSeqDegapped))
-
-	// then make the final coding regions based on what has a name
+	// make the final coding regions based on what has a name
 	cds := make([]Region, 0)
 	for _, r := range tempcds {
 		if r.Name == "" {
@@ -420,6 +417,10 @@ func RegionsFromGFF(anno gff.GFF, refSeqDegapped string) ([]Region, []int, error
 		}
 		cds = append(cds, r)
 	}
+
+	// get a slice of the positions that are not in any of the final coding regions, so that a nucleotide
+	// change at a position which is only covered by an unnamed feature is still reported
+	inter := codes(cds, len(refSeqDegapped))
 
 	// sort by start position
 	sort.SliceStable(cds, func(j, k int) bool {
